@@ -35,6 +35,11 @@ def big_fixed_byte(i, timecnt, typecnt):
         return None if k >= typecnt - BIG_SYMBOLIC_FLAGS else 1     # the last few is_dst flags are symbolic, the others set
     return 0
 
+def file_total(version, timecnt, typecnt, charcnt_max=3, extra=2, **_):
+    def data_len(tlen, tc, ty, cc): return (tlen + 1) * tc + 6 * ty + cc
+    if version >= 2: return HDR + data_len(4, 0, 1, 1) + HDR + data_len(8, timecnt, typecnt, charcnt_max) + 2 + extra
+    return HDR + data_len(4, timecnt, typecnt, charcnt_max) + extra
+
 def job_load(version, timecnt, typecnt, charcnt_max=3, extra=2, big_types=False, queries=True, lean=False):
     mod = tz.module()
     ex = symex.Executor(mod, tlimit_ms=120000)
@@ -214,6 +219,8 @@ def native_load_check(img, timeout=5, t=None, cs=None):
     if "runtime error" in err or "AddressSanitizer" in err:
         line = [l for l in err.split("\n") if "runtime error" in l or "ERROR: AddressSanitizer" in l][0]
         return "undefined behaviour on a %d-byte image: %s" % (len(img), line.strip()[-220:])
+    if p.returncode == 3:
+        return "Load accepted a %d-byte image but built an inconsistent table: %s" % (len(img), err.strip().split("\n")[-1][:200])
     if p.returncode not in (0, 1):
         return "crash (exit %d) on a %d-byte image: %s" % (p.returncode, len(img), err[-200:])
     return None
@@ -255,15 +262,15 @@ def run(tier):
     for r, j in zip(results, jobs):
         for fobj in r["failed"]:
             m = fobj["model"]
-            total = 1 + max([int(k[1:]) for k in m if k.startswith("b") and k[1:].isdigit()] or [0])
-            img = image_from_model(m, total)
             kw = j[2]
+            total = file_total(**kw)
+            img = image_from_model(m, total)
             if kw.get("big_types"):
                 total = HDR + 5 * kw["timecnt"] + 6 * kw["typecnt"] + 1 + 2
                 img = bytes((big_fixed_byte(i, kw["timecnt"], kw["typecnt"]) if big_fixed_byte(i, kw["timecnt"], kw["typecnt"]) is not None else m.get("b%d" % i, 1)) & 255 for i in range(total))
             w = native_load_check(img, t=m.get("q_t"), cs=m.get("q_cs"))
             if w:
-                kind = "hang" if "does not return" in w else ("ub" if "undefined" in w else "crash")
+                kind = "hang" if "does not return" in w else ("ub" if "undefined" in w else ("wf" if "inconsistent table" in w else "crash"))
                 rep.violation("%s:%s" % (kind, fobj["desc"][:60]), w + "  [%s: %s]" % (r["name"], fobj["desc"]), {"image": list(img), "t": m.get("q_t"), "cs": m.get("q_cs")})
             else:
                 rep.spurious.append({"job": r["name"], "obligation": fobj["desc"], "image_len": len(img)})
